@@ -1,4 +1,5 @@
 import Cppcheck.Proofs.Exec
+import Cppcheck.Gen.C15Keys
 /-
 C15 — property theorems (see docs/C15.md for the reading of every hypothesis).
 -/
@@ -115,7 +116,7 @@ variable {F : Type}
 theorem thread_eq_single (cfg : Cfg) (raws : F → List Raw) (files : List F) (jobs : Nat) (σ : List TLabel) (s' : TState F)
     (hE : cfg.emitDuplicates = false)
     (hok : ∀ f ∈ files, keyOK cfg (raws f) = true ∧ safetyOK cfg (raws f) = true ∧ dedupOK cfg (raws f) = true)
-    (hk : ∀ m ∈ forwarded cfg raws files, ∀ m' ∈ forwarded cfg raws files, cfg.key m = cfg.key m' → cfg.key2 m = cfg.key2 m')
+    (hk : ∀ m ∈ forwarded cfg raws files, ∀ m' ∈ forwarded cfg raws files, cfg.keyGate m = cfg.keyGate m' → cfg.key2 m = cfg.key2 m')
     (hrun : trun cfg raws (tinit files jobs) σ = some s') (hterm : s'.terminal = true) :
     (s'.sink.reported.map cfg.key2).Perm ((runSingle cfg raws files).sink.reported.map cfg.key2) ∧
     s'.result = (runSingle cfg raws files).result := by
@@ -135,7 +136,7 @@ theorem thread_obs_eq_single {β : Type} (cfg : Cfg) (raws : F → List Raw) (fi
     (s' : TState F) (obs : Msg → β)
     (hE : cfg.emitDuplicates = false)
     (hok : ∀ f ∈ files, keyOK cfg (raws f) = true ∧ safetyOK cfg (raws f) = true ∧ dedupOK cfg (raws f) = true)
-    (hk : ∀ m ∈ forwarded cfg raws files, ∀ m' ∈ forwarded cfg raws files, cfg.key m = cfg.key m' → cfg.key2 m = cfg.key2 m')
+    (hk : ∀ m ∈ forwarded cfg raws files, ∀ m' ∈ forwarded cfg raws files, cfg.keyGate m = cfg.keyGate m' → cfg.key2 m = cfg.key2 m')
     (hobs : ∀ m ∈ forwarded cfg raws files, ∀ m' ∈ forwarded cfg raws files, cfg.key2 m = cfg.key2 m' → obs m = obs m')
     (hrun : trun cfg raws (tinit files jobs) σ = some s') (hterm : s'.terminal = true) :
     (s'.sink.reported.map obs).Perm ((runSingle cfg raws files).sink.reported.map obs) := by
@@ -153,7 +154,7 @@ theorem process_eq_single (cfg : Cfg) (raws : F → List Raw) (sups : F → List
     (σ : List PLabel) (s' : PState F)
     (hE : cfg.emitDuplicates = false)
     (hok : ∀ f ∈ files, keyOK cfg (raws f) = true ∧ safetyOK cfg (raws f) = true ∧ dedupOK cfg (raws f) = true)
-    (hk : ∀ m ∈ forwarded cfg raws files, ∀ m' ∈ forwarded cfg raws files, cfg.key m = cfg.key m' → cfg.key2 m = cfg.key2 m')
+    (hk : ∀ m ∈ forwarded cfg raws files, ∀ m' ∈ forwarded cfg raws files, cfg.keyGate m = cfg.keyGate m' → cfg.key2 m = cfg.key2 m')
     (hmsg : ∀ m ∈ forwarded cfg raws files, (Ev.err m).good cfg = true)
     (hsup : ∀ f ∈ files, ∀ p ∈ sups f, (Ev.suppr p.1 p.2).good cfg = true)
     (hrun : prun cfg jobs raws sups (pinit files) σ = some s') (hterm : s'.terminal = true) :
@@ -181,7 +182,7 @@ theorem process_obs_eq_single {β : Type} (cfg : Cfg) (raws : F → List Raw) (s
     (jobs : Nat) (σ : List PLabel) (s' : PState F) (obs : Msg → β)
     (hE : cfg.emitDuplicates = false)
     (hok : ∀ f ∈ files, keyOK cfg (raws f) = true ∧ safetyOK cfg (raws f) = true ∧ dedupOK cfg (raws f) = true)
-    (hk : ∀ m ∈ forwarded cfg raws files, ∀ m' ∈ forwarded cfg raws files, cfg.key m = cfg.key m' → cfg.key2 m = cfg.key2 m')
+    (hk : ∀ m ∈ forwarded cfg raws files, ∀ m' ∈ forwarded cfg raws files, cfg.keyGate m = cfg.keyGate m' → cfg.key2 m = cfg.key2 m')
     (hobs : ∀ m ∈ forwarded cfg raws files, ∀ m' ∈ forwarded cfg raws files, cfg.key2 m = cfg.key2 m' → obs m = obs m')
     (hmsg : ∀ m ∈ forwarded cfg raws files, (Ev.err m).good cfg = true)
     (hsup : ∀ f ∈ files, ∀ p ∈ sups f, (Ev.suppr p.1 p.2).good cfg = true)
@@ -232,7 +233,7 @@ theorem suppr_good_of_transportable (cfg : Cfg) (inl : Bool) (s : Suppr) (h : s.
 theorem thread_exit_eq_single (cfg : Cfg) (raws : F → List Raw) (files : List F) (jobs : Nat) (σ : List TLabel) (s' : TState F)
     (hE : cfg.emitDuplicates = false) (hS : cfg.safety = false)
     (hok : ∀ f ∈ files, keyOK cfg (raws f) = true ∧ safetyOK cfg (raws f) = true ∧ dedupOK cfg (raws f) = true)
-    (hk : ∀ m ∈ forwarded cfg raws files, ∀ m' ∈ forwarded cfg raws files, cfg.key m = cfg.key m' → cfg.key2 m = cfg.key2 m')
+    (hk : ∀ m ∈ forwarded cfg raws files, ∀ m' ∈ forwarded cfg raws files, cfg.keyGate m = cfg.keyGate m' → cfg.key2 m = cfg.key2 m')
     (hrun : trun cfg raws (tinit files jobs) σ = some s') (hterm : s'.terminal = true) :
     exitStatus cfg s'.result s'.sink = exitStatus cfg (runSingle cfg raws files).result (runSingle cfg raws files).sink := by
   simp only [exitStatus, hS, Bool.false_and, Bool.false_eq_true, ↓reduceIte,
@@ -242,7 +243,7 @@ theorem process_exit_eq_single (cfg : Cfg) (raws : F → List Raw) (sups : F →
     (σ : List PLabel) (s' : PState F)
     (hE : cfg.emitDuplicates = false) (hS : cfg.safety = false)
     (hok : ∀ f ∈ files, keyOK cfg (raws f) = true ∧ safetyOK cfg (raws f) = true ∧ dedupOK cfg (raws f) = true)
-    (hk : ∀ m ∈ forwarded cfg raws files, ∀ m' ∈ forwarded cfg raws files, cfg.key m = cfg.key m' → cfg.key2 m = cfg.key2 m')
+    (hk : ∀ m ∈ forwarded cfg raws files, ∀ m' ∈ forwarded cfg raws files, cfg.keyGate m = cfg.keyGate m' → cfg.key2 m = cfg.key2 m')
     (hmsg : ∀ m ∈ forwarded cfg raws files, (Ev.err m).good cfg = true)
     (hsup : ∀ f ∈ files, ∀ p ∈ sups f, (Ev.suppr p.1 p.2).good cfg = true)
     (hrun : prun cfg jobs raws sups (pinit files) σ = some s') (hterm : s'.terminal = true) :
@@ -255,7 +256,7 @@ theorem process_exit_eq_single (cfg : Cfg) (raws : F → List Raw) (sups : F →
 
 /-- template `{message}`; one global suppression of id `g`; `syntaxError` is critical -/
 def exCfg (safety fix : Bool) : Cfg :=
-  { key := fun m => m.short, key2 := fun m => m.short, supG := fun v => v.errorId = ['g'], supGX := fun v => v.errorId = ['g'],
+  { key := fun m => m.short, keyGate := fun m => m.short, key2 := fun m => m.short, supG := fun v => v.errorId = ['g'], supGX := fun v => v.errorId = ['g'],
     critical := fun id => id = "syntaxError".toList, safety := safety, dedupFix := fix, exitCode := 3, simp := id }
 
 def exMsg (id short : String) : Msg :=
@@ -315,7 +316,7 @@ theorem process_text_nonascii_counterexample :
 
 /-- `--safety --suppress=syntaxError`: the id is critical and matched by a non-local suppression -/
 def safetyCfg : Cfg :=
-  { key := fun m => m.id, key2 := fun m => m.id, supG := fun v => v.errorId = "syntaxError".toList,
+  { key := fun m => m.id, keyGate := fun m => m.id, key2 := fun m => m.id, supG := fun v => v.errorId = "syntaxError".toList,
     supGX := fun v => v.errorId = "syntaxError".toList, critical := fun id => id = "syntaxError".toList, safety := true, simp := id }
 
 /-- F11c: outside `safetyOK` the executors really differ — the single executor model ends with exit status 1 (critical
@@ -339,7 +340,7 @@ theorem thread_safety_counterexample :
 /-- `--template={id} --suppress=nullPointer:*.c:2`: a global suppression that matches the first of two findings with
     the same text -/
 def dedupCfg (fix : Bool) : Cfg :=
-  { key := fun m => m.id, key2 := fun m => m.id, supG := fun v => v.errorId = "nullPointer".toList ∧ v.line = 2,
+  { key := fun m => m.id, keyGate := fun m => m.id, key2 := fun m => m.id, supG := fun v => v.errorId = "nullPointer".toList ∧ v.line = 2,
     supGX := fun v => v.errorId = "nullPointer".toList ∧ v.line = 2, critical := fun _ => false, dedupFix := fix, simp := id }
 
 def dedupRaws : Nat → List Raw := fun _ =>
@@ -362,5 +363,92 @@ theorem thread_dedup_counterexample :
 /-- … and for the current code (`dedupFix = true`, /repo 9907ad7) the same input satisfies `dedupOK`, so
     `thread_eq_single` applies to it -/
 example : dedupOK (dedupCfg true) (dedupRaws 0) = true ∧ dedupOK (dedupCfg false) (dedupRaws 0) = false := by decide
+
+/-! ### the duplicate-filter keys of the three loggers (arguments of the `toString` calls extracted from the source) -/
+
+/-- KEY REFINEMENT: the key `Executor::hasToLog` computes distinguishes whatever the keys of `CppCheckLogger::reportErr` and
+    of `StdLogger::reportErr` distinguish — for every `toString`, every template and every pair of messages — because the
+    three calls in the current source pass the same arguments (`Gen/C15Keys.lean`, regenerated on every run). -/
+theorem gate_key_refines (r : RenderCfg) (m m' : Msg) (h : r.keyOf Gen.gateKeyArgs m = r.keyOf Gen.gateKeyArgs m') :
+    r.keyOf Gen.loggerKeyArgs m = r.keyOf Gen.loggerKeyArgs m' ∧ r.keyOf Gen.sinkKeyArgs m = r.keyOf Gen.sinkKeyArgs m' := by
+  have h1 : Gen.gateKeyArgs = Gen.loggerKeyArgs := by decide
+  have h2 : Gen.gateKeyArgs = Gen.sinkKeyArgs := by decide
+  rw [← h1, ← h2]
+  exact ⟨h, h⟩
+
+/-- `thread_eq_single` for the keys the source computes: no hypothesis on the keys is left -/
+theorem thread_eq_single_source_keys (base : Cfg) (r : RenderCfg) (raws : F → List Raw) (files : List F) (jobs : Nat)
+    (σ : List TLabel) (s' : TState F)
+    (hE : base.emitDuplicates = false)
+    (hok : ∀ f ∈ files, keyOK (base.withKeys r Gen.loggerKeyArgs Gen.gateKeyArgs Gen.sinkKeyArgs) (raws f) = true ∧
+      safetyOK (base.withKeys r Gen.loggerKeyArgs Gen.gateKeyArgs Gen.sinkKeyArgs) (raws f) = true ∧
+      dedupOK (base.withKeys r Gen.loggerKeyArgs Gen.gateKeyArgs Gen.sinkKeyArgs) (raws f) = true)
+    (hrun : trun (base.withKeys r Gen.loggerKeyArgs Gen.gateKeyArgs Gen.sinkKeyArgs) raws (tinit files jobs) σ = some s')
+    (hterm : s'.terminal = true) :
+    (s'.sink.reported.map (r.keyOf Gen.sinkKeyArgs)).Perm
+      ((runSingle (base.withKeys r Gen.loggerKeyArgs Gen.gateKeyArgs Gen.sinkKeyArgs) raws files).sink.reported.map (r.keyOf Gen.sinkKeyArgs)) ∧
+    s'.result = (runSingle (base.withKeys r Gen.loggerKeyArgs Gen.gateKeyArgs Gen.sinkKeyArgs) raws files).result :=
+  thread_eq_single (base.withKeys r Gen.loggerKeyArgs Gen.gateKeyArgs Gen.sinkKeyArgs) raws files jobs σ s' hE hok
+    (fun m _ m' _ h => (gate_key_refines r m m' h).2) hrun hterm
+
+theorem process_eq_single_source_keys (base : Cfg) (r : RenderCfg) (raws : F → List Raw) (sups : F → List (Bool × Suppr))
+    (files : List F) (jobs : Nat) (σ : List PLabel) (s' : PState F)
+    (hE : base.emitDuplicates = false)
+    (hok : ∀ f ∈ files, keyOK (base.withKeys r Gen.loggerKeyArgs Gen.gateKeyArgs Gen.sinkKeyArgs) (raws f) = true ∧
+      safetyOK (base.withKeys r Gen.loggerKeyArgs Gen.gateKeyArgs Gen.sinkKeyArgs) (raws f) = true ∧
+      dedupOK (base.withKeys r Gen.loggerKeyArgs Gen.gateKeyArgs Gen.sinkKeyArgs) (raws f) = true)
+    (hmsg : ∀ m ∈ forwarded (base.withKeys r Gen.loggerKeyArgs Gen.gateKeyArgs Gen.sinkKeyArgs) raws files,
+      (Ev.err m).good (base.withKeys r Gen.loggerKeyArgs Gen.gateKeyArgs Gen.sinkKeyArgs) = true)
+    (hsup : ∀ f ∈ files, ∀ p ∈ sups f, (Ev.suppr p.1 p.2).good (base.withKeys r Gen.loggerKeyArgs Gen.gateKeyArgs Gen.sinkKeyArgs) = true)
+    (hrun : prun (base.withKeys r Gen.loggerKeyArgs Gen.gateKeyArgs Gen.sinkKeyArgs) jobs raws sups (pinit files) σ = some s')
+    (hterm : s'.terminal = true) :
+    (s'.parent.sink.reported.map (r.keyOf Gen.sinkKeyArgs)).Perm
+      ((runSingle (base.withKeys r Gen.loggerKeyArgs Gen.gateKeyArgs Gen.sinkKeyArgs) raws files).sink.reported.map (r.keyOf Gen.sinkKeyArgs)) ∧
+    s'.parent.result = (runSingle (base.withKeys r Gen.loggerKeyArgs Gen.gateKeyArgs Gen.sinkKeyArgs) raws files).result :=
+  process_eq_single (base.withKeys r Gen.loggerKeyArgs Gen.gateKeyArgs Gen.sinkKeyArgs) raws sups files jobs σ s' hE hok
+    (fun m _ m' _ h => (gate_key_refines r m m' h).2) hmsg hsup hrun hterm
+
+/-- template `{id}` with location template `{line}:{info}` -/
+def idLocRender : RenderCfg :=
+  { render := renderIdLoc, verbose := false, templateFormat := "{id}".toList, templateLocation := "{line}:{info}".toList }
+
+/-- a `hasToLog` that renders its key with an empty location template (the arguments a "the notes are not needed for a key"
+    change would pass) -/
+def gateArgsWithoutLocation : KeyArgs :=
+  { verbose := .settingsVerbose, format := .settingsTemplateFormat, location := .emptyString }
+
+def noteMsg (note : String) : Msg :=
+  { id := "zerodiv".toList, severity := .error, short := "Division by zero.".toList,
+    stack := [{ file := "div.h".toList, origFile := "div.h".toList, line := 3, col := 13, info := note.toList },
+              { file := "div.h".toList, origFile := "div.h".toList, line := 7, col := 14, info := "Division by zero".toList }] }
+
+/-- the refinement is a property of the extracted arguments, not of `toString`: with an empty location template in the
+    gate's call two findings that differ only in their path notes get one gate key and two logger keys … -/
+theorem gate_key_without_location_counterexample :
+    ¬ ∀ (r : RenderCfg) (m m' : Msg), r.keyOf gateArgsWithoutLocation m = r.keyOf gateArgsWithoutLocation m' →
+        r.keyOf Gen.loggerKeyArgs m = r.keyOf Gen.loggerKeyArgs m' := by
+  intro h
+  have := h idLocRender (noteMsg "Assignment 'd=0', assigned value is 0") (noteMsg "Assignment 'd=1-1', assigned value is 0") (by decide)
+  revert this
+  decide
+
+/-- … and the thread executor model then reports one finding where the single executor model reports two -/
+theorem thread_gate_key_without_location_counterexample :
+    ∃ (σ : List TLabel) (s' : TState Nat),
+      trun ((exCfg false true).withKeys idLocRender Gen.loggerKeyArgs gateArgsWithoutLocation Gen.sinkKeyArgs)
+        (fun f => [{ msg := noteMsg (if f = 0 then "Assignment 'd=0', assigned value is 0" else "Assignment 'd=1-1', assigned value is 0") }])
+        (tinit [0, 1] 2) σ = some s' ∧ s'.terminal = true ∧ s'.sink.reported.length = 1 ∧
+      (runSingle ((exCfg false true).withKeys idLocRender Gen.loggerKeyArgs gateArgsWithoutLocation Gen.sinkKeyArgs)
+        (fun f => [{ msg := noteMsg (if f = 0 then "Assignment 'd=0', assigned value is 0" else "Assignment 'd=1-1', assigned value is 0") }])
+        [0, 1]).sink.reported.length = 2 := by
+  have hsome : (trun ((exCfg false true).withKeys idLocRender Gen.loggerKeyArgs gateArgsWithoutLocation Gen.sinkKeyArgs)
+        (fun f => [{ msg := noteMsg (if f = 0 then "Assignment 'd=0', assigned value is 0" else "Assignment 'd=1-1', assigned value is 0") }])
+        (tinit [0, 1] 2) [.next 0, .next 1, .gate 0, .gate 1, .print 0, .next 0, .next 1]).isSome = true := by decide
+  cases h : trun ((exCfg false true).withKeys idLocRender Gen.loggerKeyArgs gateArgsWithoutLocation Gen.sinkKeyArgs)
+        (fun f => [{ msg := noteMsg (if f = 0 then "Assignment 'd=0', assigned value is 0" else "Assignment 'd=1-1', assigned value is 0") }])
+        (tinit [0, 1] 2) [.next 0, .next 1, .gate 0, .gate 1, .print 0, .next 0, .next 1] with
+  | none => rw [h] at hsome; cases hsome
+  | some s' =>
+    refine ⟨_, s', h, ?_, ?_, by decide⟩ <;> (revert h; decide +revert)
 
 end Cppcheck.Exec
